@@ -365,7 +365,8 @@ class CallGraph:
                     if m is not None and m not in ts:
                         ts.append(m)
                 return ts, "dynamic:rule.run"
-            if isinstance(f, ast.Name) and f.id == "rule":
+            if isinstance(f, ast.Name) and (f.id == "rule" or f.id in fn.params[2:3]):
+                # the rule class handed in (third parameter, whatever it is called) is instantiated
                 return self._ctor("Rule"), "dynamic:rule-ctor"
         if key == "registry.py::Registry.__init__" and isinstance(f, ast.Attribute) and f.attr == "register":
             m = prog.method("Check", "register")
